@@ -55,6 +55,29 @@ func execParsers(prop string) func(ctx *Ctx, in *Input) *Result {
 		if !ok {
 			return res
 		}
+		if prop == "C08" {
+			// the command line wiring: `generate [-u] [-o] go|typescript` must select exactly what the library entry
+			// points produce with the corresponding mode switches (same tree, uninstrumented binary, separate process)
+			for si, sc := range pb.Specs {
+				for _, u := range sc.sortedUnits() {
+					if u.GenErr != "" {
+						continue
+					}
+					real, herr := realCLI(ctx, u.Text, u.Variant, 1)
+					if herr != "" {
+						res.Harness = herr
+						return res
+					}
+					res.Count("cli_generations_compared", 1)
+					if len(real) == 1 && string(real[0]) != string(u.Out) {
+						res.Viol = &Violation{Class: "cli-selects-other-output", Key: "cli-selects-other-output", Sub: si,
+							Msg: fmt.Sprintf("grammar [%s]: `yaccgo generate` with the flags of variant %s writes a file that differs from what the library produces for that variant (first difference: %s): the flags are wired to other mode switches",
+								sc.Spec.Short(), u.Variant, firstDiff(u.Out, real[0]))}
+						return res
+					}
+				}
+			}
+		}
 		results, meta, ok := pb.runParses(ctx, res, false)
 		if !ok {
 			return res
@@ -366,16 +389,16 @@ func init() {
 		probes   []string
 	}
 	defs := []def{
-		{"C01", "case = batch of grammars (textbook separators incl. conflict grammars resolved by default or precedence, operator tables, random CFGs) x 5 output variants generated under one map-order schedule (canonical / swarm alternating); inputs per grammar: random sentences, every string up to a length bound, mutated sentences, every prefix of sampled sentences (EOF at an arbitrary instant), unknown token codes. Every accepted parse is replayed as a derivation against the grammar as specified. distinct_nontrivial = distinct grammars with at least one input run.", false, 48, 1600,
+		{"C01", "case = batch of grammars (textbook separators incl. conflict grammars resolved by default or precedence, operator tables, random CFGs) x 5 output variants generated under one map-order schedule (canonical / swarm alternating); inputs per grammar: random sentences, every string up to a length bound, mutated sentences, every prefix of sampled sentences (EOF at an arbitrary instant), unknown token codes. Every accepted parse is replayed as a derivation against the grammar as specified. distinct_nontrivial = distinct grammars with at least one input run.", false, 32, 1600,
 			[]string{"derivations_validated", "probe_conflict_grammar", "parses_typescript"}},
-		{"C02", "as C01 but only grammars the reference classifies as conflict-free LALR(1); every input the Earley reference accepts must be accepted by every variant.", true, 48, 1600,
+		{"C02", "as C01 but only grammars the reference classifies as conflict-free LALR(1); every input the Earley reference accepts must be accepted by every variant.", true, 32, 1600,
 			[]string{"sentences_checked", "parses_typescript"}},
-		{"C06", "as C01; every input the Earley reference rejects must end in the documented error (Go: panic starting with 'Grammar error'; TypeScript: null + logged grammar error) and, for conflict-free grammars, after requesting exactly (index of the first token no sentence continues with)+1 tokens. Faults: token feed truncated at every position, unknown token codes, replaced/inserted/deleted/swapped tokens.", false, 48, 1600,
+		{"C06", "as C01; every input the Earley reference rejects must end in the documented error (Go: panic starting with 'Grammar error'; TypeScript: null + logged grammar error) and, for conflict-free grammars, after requesting exactly (index of the first token no sentence continues with)+1 tokens. Faults: token feed truncated at every position, unknown token codes, replaced/inserted/deleted/swapped tokens.", false, 32, 1600,
 			[]string{"non_sentences_checked", "error_positions_checked", "parses_typescript"}},
-		{"C07", "as C01 with random arithmetic / string-building actions over random $i, 1-3 same-typed union fields, token values injected per declared field (other fields poisoned); the returned start value must equal the reference attribute evaluation over the validated derivation.", false, 48, 1600,
+		{"C07", "as C01 with random arithmetic / string-building actions over random $i, 1-3 same-typed union fields, token values injected per declared field (other fields poisoned); the returned start value must equal the reference attribute evaluation over the validated derivation.", false, 32, 1600,
 			[]string{"values_compared", "probe_deep_tree", "parses_typescript"}},
-		{"C08", "as C01; for every input the five variants (go, go -u, go -o, go -o -u, typescript) must agree on verdict, reduction sequence, tokens requested and value; and the lookup of every (state, symbol) through each variant's generated code must equal the table built in the same run.", false, 48, 1600,
-			[]string{"pairs_compared", "matrices_compared", "parses_typescript"}},
+		{"C08", "as C01; for every input the five variants (go, go -u, go -o, go -o -u, typescript) must agree on verdict, reduction sequence, tokens requested and value; and the lookup of every (state, symbol) through each variant's generated code must equal the table built in the same run; and the uninstrumented CLI called with the variant's flags must write the same bytes as the library entry point with the corresponding mode switches.", false, 32, 1600,
+			[]string{"pairs_compared", "matrices_compared", "parses_typescript", "cli_generations_compared"}},
 	}
 	for _, d := range defs {
 		d := d
